@@ -127,6 +127,10 @@ class Gen:
                       for l in b["labels"] + b["elabels"]] + case["externs"]
         func_labels = [f["name"] for f in funcs]
         # --- instructions
+        # (optionally one function that most calls go to: several call sites
+        # per callee, whose return edges form sets the library iterates)
+        popular = rng.choice(func_labels) if func_labels and \
+            rng.random() < self.knobs.get("popular_callee_p", 0.1) else None
         empties = set()
         if rng.random() < self.knobs.get(
                 "empty_blocks_p", float(os.environ.get("VT_EMPTY", "0.12"))):
@@ -174,7 +178,9 @@ class Gen:
                                    "t": rng.choice(pool)})
             elif term == "call":
                 r = rng.random()
-                if func_labels and r < 0.7:
+                if popular is not None and r < 0.6:
+                    t = popular
+                elif func_labels and r < 0.7:
                     t = rng.choice(func_labels)
                 elif code_labels and r < 0.85:
                     t = rng.choice(code_labels)[1]
@@ -431,7 +437,8 @@ class Gen:
         per_block = {}     # bid -> list of (i, n, id, kind)
         edits = []
         blocks = self.all_blocks
-        if case["funcs"] and self.code_blocks and rng.random() < 0.2 and \
+        if case["funcs"] and self.code_blocks and \
+                rng.random() < self.knobs.get("themed_p", 0.2) and \
                 not getattr(self, "one_per_block", False):
             self.themed_edits(edits, per_block)
         for _ in range(n * 3):
@@ -539,6 +546,16 @@ class Gen:
         rng, case = self.rng, self.case
         isa = case["isa"]
         f = rng.choice(case["funcs"])
+        if rng.random() < 0.5:
+            # the function with the most call sites
+            ncalls = {}
+            for b in self.code_blocks:
+                if b["items"] and b["items"][-1].get("k") == "call":
+                    t = b["items"][-1].get("t")
+                    ncalls[t] = ncalls.get(t, 0) + 1
+            best = max(case["funcs"], key=lambda x: ncalls.get(x["name"], 0))
+            if ncalls.get(best["name"], 0) >= 2:
+                f = best
         fname = f["name"]
         sites = [b for b in self.code_blocks if b["items"] and
                  b["items"][-1].get("k") == "call" and
